@@ -129,6 +129,7 @@ impl<'ast> Visit<'ast> for BodyIndex {
             "open": br(e.paren_token.span.open()).0,
             "close": br(e.paren_token.span.close()).0,
             "nargs": e.args.len(), "trailing": e.args.trailing_punct(),
+            "args": e.args.iter().map(|a| sp(a.span())).collect::<Vec<_>>(),
             "turbofish": e.turbofish.is_some()}));
         visit::visit_expr_method_call(self, e);
     }
@@ -141,6 +142,7 @@ impl<'ast> Visit<'ast> for BodyIndex {
             "func": sp(e.func.span()),
             "open": br(e.paren_token.span.open()).0,
             "close": br(e.paren_token.span.close()).0,
+            "args": e.args.iter().map(|a| sp(a.span())).collect::<Vec<_>>(),
             "nargs": e.args.len(), "trailing": e.args.trailing_punct()}));
         visit::visit_expr_call(self, e);
     }
@@ -203,8 +205,14 @@ impl<'ast> Visit<'ast> for BodyIndex {
         visit::visit_expr_break(self, e);
     }
     fn visit_expr_return(&mut self, e: &'ast syn::ExprReturn) {
-        self.nodes.push(json!({"k":"return","span":sp(e.span())}));
+        let ex = e.expr.as_ref().map(|x| sp(x.span()));
+        self.nodes.push(json!({"k":"return","span":sp(e.span()),"expr":ex}));
         visit::visit_expr_return(self, e);
+    }
+    fn visit_expr_if(&mut self, e: &'ast syn::ExprIf) {
+        self.nodes.push(json!({"k":"if","span":sp(e.span()),"then":sp(e.then_branch.span()),
+            "has_else": e.else_branch.is_some()}));
+        visit::visit_expr_if(self, e);
     }
     fn visit_macro(&mut self, m: &'ast syn::Macro) {
         let p = path_str(&m.path);
